@@ -1,6 +1,6 @@
 """Unit `thread_local_cache`: ThreadLocalCache<R> under R1 (RefCell/LocalKey erased), R2, R3 (LocalKey::with inlined)."""
 from extract.rules import R, R4, R5, R1_TYPES
-from contracts.units.engine_common import (COMMON, SYNC_SPEC, wf_pre, store_pre, get_ensures, incr_ensures, evict_requires, evict_ensures, insert_ensures, CFG_FRAME, insertm_requires, insertm_ensures, memloop_spec, insert_result_ensures, MEM_HINTS)
+from contracts.units.engine_common import (COMMON, SYNC_SPEC, wf_pre, store_pre, get_ensures, incr_ensures, evict_requires, evict_ensures, insert_ensures, CFG_FRAME, insertm_requires, insertm_ensures, memloop_spec, insert_result_ensures, MEM_HINTS, mem_hints)
 from contracts.units.global_cache import UTILS_FNS, SCORE_STUBS
 
 T = 'cachelito-core/src/thread_local_cache.rs'
@@ -48,7 +48,7 @@ UNIT = dict(
         fn('insert', rules=R4, requires=store_pre(M), ensures=insert_ensures(M)),
         fn('insert_with_memory', impl=IMPL_MEM, impl_rules=IMPL_RULES, rules=R4 + R5,
            requires=insertm_requires(M), ensures=insertm_ensures(M),
-           loops={0: memloop_spec(M, 'order', K='key')}, hints=MEM_HINTS),
+           loops={0: memloop_spec(M, 'order', K='key')}, hints=mem_hints(M, 'order')),
         fn('insert_result', impl=r"^impl<T: Clone \+ Debug \+ 'static, E: Clone \+ Debug \+ 'static> ThreadLocalCache<Result<T, E>>$", requires=store_pre(M), ensures=insert_result_ensures(M)),
         fn('insert_result_with_memory', impl=r"MemoryEstimator,? > ThreadLocalCache<Result<T, E>>$", impl_rules=IMPL_RULES,
            requires=store_pre(M) + [('counters_unsaturated', 'freq_ok(old(self).%s@)' % M)],
